@@ -114,6 +114,16 @@ def mul_events(args):
     c = {"p": p, "a": a % p, "b": b % p}
     events, keys = [], []
     Z0 = {"t": [0, 1, 0]}
+    even = {}
+
+    def even_order(Q):
+        """F8 predicate: some multiple of Q is a point of order 2 (affine y = 0)"""
+        if Q is None:
+            return False
+        if Q not in even:
+            even[Q] = toy.t_order(Q, p, a) % 2 == 0
+        return even[Q]
+
     for P in pts:
         variants = [("plain", ("jac", 1), None, False), ("plain-scaled", ("jac", 3 % p or 2), None, False),
                     ("legacy", "aff", None, False)]
@@ -131,7 +141,7 @@ def mul_events(args):
                 out = out_point(ec, (lambda: k * A) if left else (lambda: A * k))
                 events.append({"c": c, "op": "mul", "A": {"t": tA}, "B": Z0, "k": k, "ka": 0, "kb": 0, "out": out,
                                "how": name + ("/rmul" if left else "/mul")})
-                keys.append(["F8-y0"] if P[1] % p == 0 else ["F8-y0-maybe"] if n % 2 == 0 else [])
+                keys.append(["F8-y0"] if even_order(P) else [])
         # mul_add: a*P + b*Q for Q in {P, -P, 2P, identity, another point}
         others = [P, (P[0], (-P[1]) % p), toy.t_add(P, P, p, a), None, pts[(pts.index(P) + 1) % len(pts)]]
         for Q in others:
@@ -147,7 +157,7 @@ def mul_events(args):
                         out = out_point(ec, lambda: A.mul_add(ka, B, kb))
                         events.append({"c": c, "op": "muladd", "A": {"t": tA}, "B": {"t": tB}, "k": 0, "ka": ka, "kb": kb,
                                        "out": out, "how": name})
-                        keys.append(["F8-y0-maybe"] if n % 2 == 0 else [])
+                        keys.append(["F8-y0"] if even_order(P) or even_order(Q) else [])
                         if Q is None:
                             break
     return events, keys
